@@ -21,7 +21,7 @@ interpreter over the same AST (harness/src/refint.rs): per turn the lines (text,
 tags, order) or the end / error status, and at the end of every path the typed value of every global and the visit \
 count of every knot and stitch must be equal. Second oracle (layout metamorphism): the same AST printed with \
 Ink-irrelevant changes (blank lines, trailing spaces, // and block comments, deeper uniform indentation, tabs, \
-a stitch of the current knot named without the knot) must compile and play identically along the explored paths. \
+a stitch of the current knot named without the knot, other spellings of knot headers (== k ==, === k) and of nested weave markers (** / --, extra blanks after a marker)) must compile and play identically along the explored paths. \
  Non-trivial = path with >= 1 choice point reached, >= 3 lines delivered and >= 2 of {nested weave, \
 fallback followed, once-only choice exhausted, thread, tunnel, function that printed text, glue, look-ahead \
 stressor executed, read count evaluated, sequence evaluated}; distinct = hash(source, path).";
@@ -146,6 +146,12 @@ fn real_path(json_text: &str, meta: &Rc<Meta>, path: &[usize]) -> Result<Result<
     })
 }
 
+/// `- cond:` / `- 0:` / `- text` lines inside `{ ... }` blocks are branch markers, not gathers
+fn is_block_branch(rest: &str) -> bool {
+    let r = rest.trim_start_matches('-').trim_start();
+    r.ends_with(':') || r.starts_with("else")
+}
+
 /// The same program with layout changes that Ink defines as meaningless: blank lines,
 /// trailing spaces, comment lines, deeper uniform indentation, tabs for indentation.
 pub fn layout_variant(src: &str, tape: &[u16]) -> (String, Vec<&'static str>) {
@@ -167,6 +173,19 @@ pub fn layout_variant(src: &str, tape: &[u16]) -> (String, Vec<&'static str>) {
     if bare {
         kinds.push("bare_stitch_names");
     }
+    // other ways of writing the same headers and weave markers
+    let header_style = t.pick(4); // 0 as printed, 1 `== k ==`, 2 `=== k`, 3 `==k==`
+    if header_style != 0 {
+        kinds.push("header_style");
+    }
+    let tight_markers = t.chance(1, 3); // `**` and `--` for nested levels
+    if tight_markers {
+        kinds.push("tight_markers");
+    }
+    let wide_markers = !tight_markers && t.chance(1, 3); // `*   text`
+    if wide_markers {
+        kinds.push("wide_markers");
+    }
     let mut out = String::new();
     let mut knot = String::new();
     for line in src.lines() {
@@ -181,6 +200,48 @@ pub fn layout_variant(src: &str, tape: &[u16]) -> (String, Vec<&'static str>) {
             if line.contains(&from) {
                 owned = line.replace(&from, "-> s");
                 line = &owned;
+            }
+        }
+        // header and marker styles
+        let restyled;
+        if let Some(h) = line.strip_prefix("=== ") {
+            if let Some(inner) = h.strip_suffix(" ===") {
+                restyled = match header_style {
+                    1 => format!("== {inner} =="),
+                    2 => format!("=== {inner}"),
+                    3 => format!("=={inner}=="),
+                    _ => line.to_string(),
+                };
+                line = &restyled;
+            }
+        } else if tight_markers || wide_markers {
+            let indent_len = line.len() - line.trim_start_matches(' ').len();
+            let (ind, rest) = line.split_at(indent_len);
+            let mark = rest.chars().next().unwrap_or(' ');
+            if (mark == '*' || mark == '+' || mark == '-') && !rest.starts_with("->") && !rest.starts_with("- else") {
+                // the run of markers: `* * ` / `- - `
+                let mut n = 0;
+                let bytes = rest.as_bytes();
+                let mut i = 0;
+                while i < bytes.len() && bytes[i] as char == mark {
+                    n += 1;
+                    i += 1;
+                    if i < bytes.len() && bytes[i] == b' ' && i + 1 < bytes.len() && bytes[i + 1] as char == mark {
+                        i += 1;
+                    }
+                }
+                let tail = rest[i..].trim_start_matches(' ');
+                // a gather marker directly followed by `>` would read as a divert arrow
+                if !(mark == '-' && tail.starts_with('>')) && !(mark == '-' && is_block_branch(rest)) {
+                    let marks: String = if tight_markers {
+                        std::iter::repeat(mark).take(n).collect()
+                    } else {
+                        vec![mark.to_string(); n].join("  ")
+                    };
+                    let gap = if wide_markers { "   " } else { " " };
+                    restyled = if tail.is_empty() { format!("{ind}{marks}") } else { format!("{ind}{marks}{gap}{tail}") };
+                    line = &restyled;
+                }
             }
         }
         if comments && t.chance(1, 4) {
